@@ -141,7 +141,8 @@ func realBinaryLayer(r *hx.Run) {
 	prepareReference()
 	runs, kills, faults, fsizes := 0, 0, 0, 0
 	confirmed := 0
-	for _, cfg := range []Config{{Ext: ".json", Previous: true, DirExist: true}, {Ext: ".yaml", Previous: false, DirExist: true}, {Ext: ".yaml", Previous: true, DirExist: true}, {Ext: ".json", Previous: false, DirExist: false}} {
+	for _, cfg := range []Config{{Ext: ".json", Previous: true, DirExist: true}, {Ext: ".yaml", Previous: false, DirExist: true}, {Ext: ".yaml", Previous: true, DirExist: true}, {Ext: ".json", Previous: false, DirExist: false},
+		{Ext: ".yaml", Previous: true, DirExist: true, PrevLink: true}} {
 		mk := func() (string, string) {
 			root := filepath.Join(scratch, "real")
 			_ = os.RemoveAll(root)
@@ -151,7 +152,12 @@ func realBinaryLayer(r *hx.Run) {
 			} else {
 				_ = os.MkdirAll(root, 0o755)
 			}
-			if cfg.Previous {
+			if cfg.Previous && cfg.PrevLink {
+				store := filepath.Join(root, "store")
+				_ = os.MkdirAll(store, 0o755)
+				_ = os.WriteFile(filepath.Join(store, "old"+cfg.Ext), oldBytes[cfg.Ext], 0o644)
+				_ = os.Symlink(filepath.Join(store, "old"+cfg.Ext), filepath.Join(dir, "target"+cfg.Ext))
+			} else if cfg.Previous {
 				_ = os.WriteFile(filepath.Join(dir, "target"+cfg.Ext), oldBytes[cfg.Ext], 0o644)
 			}
 			return root, dir
